@@ -402,9 +402,22 @@ def _expect_entry(sc, data, facade):
     return enc, kind, m
 
 
-def _plain_eq_lenient(real_plain, model, keyonly_variants=True):
-    """Entry comparison: the key-only ATTACKS/DISPLAYBPM ambiguity accepts None and ''."""
-    return real_plain == model.plain()
+def _entry_matches(real_plain, data, enc, kind, strict, facade):
+    """Does the loaded simfile equal the documented loading rules applied to the decoded
+    text?  Two things are accepted either way because the statement leaves them open:
+    a key-only ATTACKS/DISPLAYBPM as None or '', and - on the native path - line breaks
+    translated by Python's text mode or kept as stored ("text-mode newline translation is
+    not the library's")."""
+    raw = data.decode(enc)
+    texts = [universal_newlines(raw) if facade in NATIVE_LIKE else raw]
+    if facade in NATIVE_LIKE and "\r" in raw:
+        texts.append(raw)
+    for t in texts:
+        for km in (None, ""):
+            m = ref_load(t, kind, strict, km)
+            if not isinstance(m, LoadError) and real_plain == m.plain():
+                return True
+    return False
 
 
 def _parse_file(data, enc, kind):
@@ -481,8 +494,10 @@ def check_c05(sc, res):
         res.stats["probe:backup-clash"] += 1
         if not isinstance(o.escaped, ValueError) or o.entered:
             res.violate(P, "backup-clash-not-refused", escaped=repr(o.escaped))
-        elif o.disk.events:
-            res.violate(P, "backup-clash-refused-after-storage-calls", events=len(o.disk.events))
+        elif any(e[1] in WRITE_SIDE for e in o.disk.events):
+            # "refused before anything is written": reading first would be allowed
+            res.violate(P, "backup-clash-refused-after-write-calls",
+                        events=[e[1] for e in o.disk.events][:12])
         elif _changed_paths(o.before, o.after):
             res.violate(P, "backup-clash-changed-disk")
         res.note("clash", facade, cfg["fmt"], bool(out))
@@ -541,11 +556,10 @@ def check_c05(sc, res):
         res.violate(P, "load-failed", escaped=repr(o.escaped), enc=enc)
         return
     if o.entry_plain != expect.plain():
-        alt = ref_load(_decoded(data, enc, facade), kind, bool(cfg.get("strict", True)), "")
-        if o.entry_plain != alt.plain():
+        if not _entry_matches(o.entry_plain, data, enc, kind, bool(cfg.get("strict", True)), facade):
             res.violate(P, "loaded-simfile-differs", enc=enc, got=o.entry_plain, expected=expect.plain())
             return
-        res.stats["probe:keyonly-multi-as-empty"] += 1
+        res.stats["probe:loaded-simfile-accepted-variant"] += 1
     if o.sf_class != ("SSCSimfile" if kind == "ssc" else "SMSimfile"):
         res.violate(P, "loaded-class", got=o.sf_class, kind=kind)
         return
@@ -700,12 +714,10 @@ def _check_open(sc, res, data, enc, kind, expect):
                             try_encodings=cfg.get("try_encodings"))
             else:
                 gp = ops.real_plain(sf, lib)
-                if gp != expect.plain():
-                    alt = ref_load(_decoded(data, enc, _tf(cfg)), kind,
-                                   bool(cfg.get("strict", True)), "")
-                    if gp != alt.plain():
-                        res.violate(P, "open-loaded-simfile-differs", enc=enc, got=gp,
-                                    expected=expect.plain())
+                if gp != expect.plain() and not _entry_matches(
+                        gp, data, enc, kind, bool(cfg.get("strict", True)), _tf(cfg)):
+                    res.violate(P, "open-loaded-simfile-differs", enc=enc, got=gp,
+                                expected=expect.plain())
         ee = cfg.get("explicit_encoding")
         if ee:
             try:
@@ -736,7 +748,8 @@ def _check_open(sc, res, data, enc, kind, expect):
                     res.violate(P, "explicit-encoding-raised", encoding=ee, escaped=repr(err))
                 else:
                     gp = ops.real_plain(sf, lib)
-                    if gp != exp2.plain() and gp != ref_load(text, k2, kw["strict"], "").plain():
+                    if gp != exp2.plain() and not _entry_matches(gp, data, ee, k2, kw["strict"],
+                                                                 _tf(cfg)):
                         res.violate(P, "explicit-encoding-loaded-differs", encoding=ee, got=gp,
                                     expected=exp2.plain())
         after = disk.snapshot()
@@ -826,8 +839,10 @@ def check_c06(sc, res):
         changed = _changed_paths(o.before, o.after)
         stray = changed - ({out_path} | ({bak_path} if bak_path else set()))
         if stray:
-            res.violate(P, "other-paths-changed", sub=label, paths=sorted(stray), **extra)
-            return False
+            # The property promises nothing about other paths once a save has failed (a
+            # scratch file may be left behind by a kill): counted, not judged.  Only a body
+            # that raises must leave the whole disk untouched (sub_body).
+            res.stats["probe:other-paths-changed-after-failed-save"] += 1
         if out_path != inp and files.get(inp) != data:
             res.violate(P, "input-changed-although-output-given", sub=label, **extra)
             return False
